@@ -786,10 +786,15 @@ class BufferAsyncCalls(Generic[T]):
     def _put(self, iterable: AsyncIterable[T]) -> None:
         """
         Helper method to put an async iterable onto the queue and clear
-        the event.
+        the event. Both happen in the loop's thread as asyncio events
+        are not thread-safe and clearing it from another thread can race
+        with it being set once the function has finished.
         """
+        self.loop.call_soon_threadsafe(self._put_nowait, iterable)
+
+    def _put_nowait(self, iterable: AsyncIterable[T]) -> None:
         self.event.clear()
-        self.loop.call_soon_threadsafe(self.q.put_nowait, iterable)
+        self.q.put_nowait(iterable)
 
     def _empty_queue(self) -> Yields[AsyncIterable[T]]:
         """Get all of the elements immediately available in the queue."""
